@@ -64,6 +64,38 @@ fn c12_cleanup_step() {
     vassert!(t.len() == h0 as usize + h1 as usize + h2 as usize, "C12: table holds rows that were never inserted");
 }
 
+// @harness props=C12 tier=quick cap=900
+// the same sweep step on a table of TWO rows (both may be stale at once): a sweep removes EVERY row silent
+// for >= delete_after whole seconds, not just one. (Small enough for its counterexample trace to be parsed.)
+#[cfg_attr(kani, kani::proof)]
+#[cfg_attr(kani, kani::unwind(8))]
+#[cfg_attr(kani, kani::stub(chrono::Utc::now, crate::verif::rt::stub_now_half))]
+#[cfg_attr(verif_replay, test)]
+fn c12_cleanup_two_rows() {
+    let (k0, k1) = (any_below(1 << 24), any_below(1 << 24));
+    assume(k0 != 0 && k1 != 0 && k0 != k1);
+    let (a0, a1) = (any_i64(), any_i64());
+    assume(a0 >= 1 && a0 <= 41000 && a1 >= 1 && a1 <= 41000);
+    let (n0, n1) = (any_nanos(), any_nanos());
+    let delete_after = any_i64();
+    assume(delete_after >= 1 && delete_after <= 40000);
+    let mut planes = Planes::new();
+    {
+        let mut t = planes.aircrafts.write().unwrap();
+        t.insert(k0, row_ns(k0, a0, n0));
+        t.insert(k1, row_ns(k1, a1, n1));
+    }
+    let mut st = AppCounters::from_update_interval(3);
+    st.cleanup_count = 11;
+    planes.cleanup(&mut st, now_half(), delete_after);
+    let t = planes.aircrafts.read().unwrap();
+    let (e0, e1) = (elapsed_whole(a0, n0), elapsed_whole(a1, n1));
+    vcover!(e0 >= delete_after && e1 >= delete_after, "both rows stale at the same sweep");
+    vcover!(e0 < delete_after && e1 >= delete_after, "one stale, one fresh");
+    vassert!(t.get(&k0).is_some() == (e0 < delete_after), "C12: a sweep must keep exactly the rows heard less than delete_after whole seconds ago (row 0)");
+    vassert!(t.get(&k1).is_some() == (e1 < delete_after), "C12: a sweep must keep exactly the rows heard less than delete_after whole seconds ago (row 1)");
+}
+
 // @harness props=C19,C12 tier=quick cap=1200
 // the sweep under two option sets that differ in the refresh interval (-u) - the only presentation
 // option that reaches the counters object handed to `cleanup` - removes the same rows: two tables holding
